@@ -385,7 +385,7 @@ class Update(object):
                     decode_value = binascii.b2a_hex(attr_value).decode('utf-8')
                 attributes[type_code] = decode_value
 
-            if bgpls_attr:
+            if bgpls_attr is not None:
                 attributes.update(LinkState.unpack(bgpls_pro_id=bgpls_pro_id, data=bgpls_attr).dict())
 
             evpn_overlay = EVPN.signal_evpn_overlay(attributes)
